@@ -824,9 +824,12 @@ func c18HasFn(c *Ctx, name string) bool {
 // after the sweep is closed by nobody — unless the stop request is consulted after the registration. Decided here:
 // (1) the connection parameter is stored into a map / slice field of the listener in runConnection's region;
 // (2) on every path, the first read is preceded by a consultation of stopRequest, and every such consultation by a
-//     registration (register, then look: whichever of sweep and registration comes second sees the other);
+//
+//	registration (register, then look: whichever of sweep and registration comes second sees the other);
+//
 // (3) some function of the package ranges over that field and closes the connections, and waits on / is reached after the
-//     stop request.
+//
+//	stop request.
 func c18RegistryCloser(c *Ctx) {
 	const fStop = "input/tcplistener.tcpLineListener.stopRequest"
 	for _, rc := range c.P.Fns(aRunConn) {
